@@ -45,13 +45,13 @@ COV_CONST = ['CopyArgs = {"f1"}', 'DirArgs = {"missing"}', 'PathForms = {"plain"
 FAMILIES = {
     "quick": [("life4", "bare", "life", 4, 700), ("fill5", "keepon", "fill", 5, 650), ("prev3", "prev", "prev", 3, 300),
               ("fail5", "fail", "fail", 5, 400), ("twice4", "bare", "twice", 4, 250), ("name3", "bare", "name", 3, 32)],
-    "thorough": [("life5", "bare", "life", 5, 10 ** 7), ("fill5", "keepon", "fill", 5, 10 ** 7),
-                 ("fill6", "keepon", "fill", 6, 30000), ("prev4", "prev", "prev", 4, 10 ** 7),
+    "thorough": [("life5", "bare", "life", 5, 25000), ("fill5", "keepon", "fill", 5, 10 ** 7),
+                 ("fill6", "keepon", "fill", 6, 15000), ("prev4", "prev", "prev", 4, 10 ** 7),
                  ("fail6", "fail", "fail", 6, 10 ** 7), ("twice4", "fail", "twice", 4, 10 ** 7),
                  ("name3", "fail", "name", 3, 10 ** 7)],
 }
 # TLC -simulate over all calls, configurations and worlds: (depth, behaviours, cap on replayed histories)
-SIM = {"quick": (8, 200, 300), "thorough": (12, 4000, 20000)}
+SIM = {"quick": (8, 200, 300), "thorough": (12, 3000, 10000)}
 
 ASSUMPTIONS = [
     "the class is exercised in one process per batch, one fresh sandbox directory per history; every path it uses is "
@@ -335,10 +335,10 @@ def selftests(traces):
             if op in ("CleanupTmp", "Exit") and not post["tmp"] and pre["tmp"]:
                 if not keep:
                     add("tmp-remains", t, i, "Cleanup", lambda ev: ev["post"].update(tmp=True))
-                    if pre["tar"]["ex"] and pre["keepdir"] == "absent":
+                    if pre["tar"]["ex"] and pre["keepdir"] == "absent" and not pre["kept"]["ex"]:
                         add("kept-although-off", t, i, "KeptFaithful",
                             lambda ev, p=pre: ev["post"].update(kept=copy.deepcopy(p["tar"]), keepdir="present"))
-                elif rt and pre["tar"]["ex"] and post["kept"]["ex"]:
+                elif rt and pre["tar"]["ex"] and post["kept"]["ex"] and not pre["kept"]["ex"]:
                     add("not-kept", t, i, "Cleanup", lambda ev: ev["post"].update(kept=dict(absent)))
             if op == "CleanupPrevious" and pre["tmp"] and post["tmp"] and pre["adir"]["ex"]:
                 add("current-run-removed", t, i, "Frame",
@@ -469,7 +469,7 @@ def run(prop, tier):
              "a fresh sandbox (real tar) and every step is judged by TLC (ArchiveLifeTrace); distinct_nontrivial = "
              "distinct (configuration, world, call sequence) in which a clause antecedent beyond the frame is active"
              % (FULL_CONST[tier][:2], [f[0] for f in FAMILIES[tier]],
-                ", a VERIF_SEED sample of each replayed" if tier == "quick" else "", SIM[tier][0]),
+                ", a VERIF_SEED sample of the larger ones replayed", SIM[tier][0]),
         samples=samples, assumptions=ASSUMPTIONS,
         extra=dict(histories_emitted=emitted, calls_replayed=stats, antecedents_exercised=counts,
                    design_divergence_notes=notes, model_actions_in_emitted_histories=taken,
